@@ -11,6 +11,8 @@
 (*   steps of the specification here.                                                             *)
 (* atomic recording (Atomic = TRUE)                                                               *)
 (*   {"ev":"ImportAll","m":m,"order":[..],"loaded":[..],"bound":[..]}  one event per import       *)
+(*   {"ev":"ImportMore","m":m,"order":[..],"dl":[..],"db":[..]}  the same in a long chain of      *)
+(*                                                imports: only what this import added            *)
 (* The recorded execution must be a behaviour of Imports.tla with the constants derived from the *)
 (* tree: same ioflo modules started in the same order, same loaded and bound sets whenever an    *)
 (* import returns.                                                                                *)
@@ -34,6 +36,8 @@ TraceNext ==
     \/ Consume("Done") /\ Done /\ loaded = ToSet(Ev.loaded) /\ bound = ToSet(Ev.bound)
     \/ Consume("ImportAll") /\ ImportAll(Ev.m) /\ res' = "ok"
                             /\ order' = Ev.order /\ loaded' = ToSet(Ev.loaded) /\ bound' = ToSet(Ev.bound)
+    \/ Consume("ImportMore") /\ ImportAll(Ev.m) /\ res' = "ok"
+                             /\ order' = Ev.order /\ loaded' = loaded \cup ToSet(Ev.dl) /\ bound' = bound \cup ToSet(Ev.db)
     \/ Silent /\ LoadExt
     \/ Silent /\ Finish
 
